@@ -47,7 +47,7 @@ class Lock:
 
 def run(cmd, cwd=None, env=None, timeout=None, stdin=None):
     p = subprocess.run(cmd, cwd=cwd, env=env, timeout=timeout, input=stdin,
-                       stdout=subprocess.PIPE, stderr=subprocess.STDOUT, text=True)
+                       stdout=subprocess.PIPE, stderr=subprocess.STDOUT, text=True, errors="replace")
     return p.returncode, p.stdout
 
 
@@ -247,7 +247,7 @@ def run_tie(pid, families, tier, seed, mharness, extra_ops_files=()):
     with open(casesf, "w") as fout:
         while remaining:
             p = subprocess.run([mharness, "eval"], input="\n".join(remaining) + "\n", stdout=subprocess.PIPE,
-                               stderr=subprocess.PIPE, env=env, text=True)
+                               stderr=subprocess.PIPE, env=env, text=True, errors="replace")
             lines = p.stdout.split("\n")
             if lines and lines[-1] == "":
                 lines.pop()
@@ -269,7 +269,7 @@ def run_tie(pid, families, tier, seed, mharness, extra_ops_files=()):
                 raise RuntimeError("too many harness restarts")
     mdriver = os.path.join(LEAN, ".lake", "build", "bin", "mdriver")
     with open(casesf) as fin, open(verdf, "w") as fout:
-        p = subprocess.run([mdriver], stdin=fin, stdout=fout, stderr=subprocess.PIPE, text=True)
+        p = subprocess.run([mdriver], stdin=fin, stdout=fout, stderr=subprocess.PIPE, text=True, errors="replace")
         if p.returncode != 0:
             raise RuntimeError("mdriver failed: " + p.stderr[-2000:])
     tally = {"evaluations": 0, "ok": 0, "diff": [], "spec": {}, "bad": [], "by_op": {}, "distinct": set(),
